@@ -9,7 +9,7 @@ git -C $WT checkout -q --detach "$(git -C /repo rev-parse HEAD)"; git -C $WT che
 FLAGS="-std=gnu++17 -O1 -g -I$WT/include"
 grep -q "YAKUSHIMA_VERIF\|verif::" "$D/demo.cpp" && FLAGS="$FLAGS -DYAKUSHIMA_VERIF"
 # extra -D flags named in a first-line "// build: ..." comment of the demo
-EXTRA=$(head -1 "$D/demo.cpp" | grep "^// build:" | grep -o -- "-D[A-Za-z_0-9=]*" | tr '\n' ' ')
+EXTRA=$(head -1 "$D/demo.cpp" | grep "^// build:" | grep -o -- "-D[A-Za-z_][A-Za-z_0-9=]*" | tr '\n' ' ')
 FLAGS="$FLAGS $EXTRA"
 grep -q "gtest" "$D/demo.cpp" && LIBS="-lgtest -lgtest_main" || LIBS=""
 build_run() {
